@@ -1,5 +1,6 @@
 import Jrpc.Model.Framing
 import Jrpc.Proofs.Hdr
+import Jrpc.Proofs.Raw
 /-! # C11 — framing round trip: records arrive intact and in order -/
 namespace Jrpc.Props.C11
 open Jrpc.Framing
@@ -119,6 +120,55 @@ theorem raw_send (msg : Bytes) :
 
 /-- the empty record round-trips through `null\n` -/
 theorem raw_roundtrip_empty : rawRecv (rawSend []) = (.ok [], [10]) := by decide
+
+/-- a JSON object or array record (checked executably: `isContainerB`) is never `null` -/
+theorem container_not_null (v : Bytes) (h : isContainerB v = true) : isNull v = false := by
+  cases hn : isNull v with
+  | false => rfl
+  | true =>
+    have : v = [110, 117, 108, 108] := by simpa [isNull] using hn
+    subst this
+    exact absurd h (by decide)
+
+/-- `Recv` returns a leading object / array exactly and leaves exactly what follows it -/
+theorem raw_recv_send (v rest : Bytes) (h : isContainerB v = true) :
+    rawRecv (rawSend v ++ rest) = (.ok v, rest) := by
+  have hnn := container_not_null v h
+  have hne : v ≠ [] := by intro e; subst e; simp [isContainerB] at h
+  have : rawSend v = v := by simp [rawSend, hne, hnn]
+  rw [this]
+  exact raw_recv_container v rest (isContainerB_spec v h) hnn
+
+theorem raw_recv_empty : rawRecv [] = (.err .eof, []) := by decide
+
+/-- the concatenation `Send` produces for a list of records -/
+def rawStream : List Bytes → Bytes
+  | [] => []
+  | r :: rs => rawSend r ++ rawStream rs
+
+/-- **round trip (RawJSON)**: for every list of records that are JSON objects or arrays (every
+JSON-RPC message is one), successive Recvs on the plain concatenation return exactly those
+records, in order, and then `io.EOF` for ever -/
+theorem raw_roundtrip (rs : List Bytes) (h : ∀ r ∈ rs, isContainerB r = true) (k : Nat) :
+    recvN .raw (rs.length + k) (rawStream rs) = rs.map .ok ++ List.replicate k (.err .eof) := by
+  induction rs with
+  | nil =>
+    simp only [List.length_nil, Nat.zero_add, rawStream, List.map_nil, List.nil_append]
+    cases k with
+    | zero => rfl
+    | succ n => simp [recvN, recv1, raw_recv_empty]
+  | cons r rs ih =>
+    have hr := h r (by simp)
+    have hrs : ∀ x ∈ rs, isContainerB x = true := fun x hx => h x (by simp [hx])
+    have : (r :: rs).length + k = (rs.length + k) + 1 := by simp; omega
+    rw [this]
+    simp only [recvN, recv1, rawStream, raw_recv_send r _ hr, List.map_cons, List.cons_append]
+    rw [ih hrs]
+
+/-- premises are satisfiable: a request object, a batch array, with nested strings and escapes -/
+example : isContainerB [123, 34, 97, 92, 34, 34, 58, 91, 49, 44, 123, 125, 93, 125] = true := by decide
+example : isContainerB [91, 123, 125, 44, 32, 91, 93, 93] = true := by decide
+example : isContainerB [49, 50] = false := by decide
 
 /-! ### Direct (an in-memory queue of records) -/
 
